@@ -20,28 +20,28 @@ def S(engine, flavour, quick, thorough, prop=None, **kw):
     return d
 
 STAGES = {
-    "C01": [S("e_seq", "asu", 12000, 400000)],
-    "C02": [S("e_seq", "asu", 12000, 400000)],
-    "C05": [S("e_seq", "asu", 12000, 400000)],
-    "C06": [S("e_seq", "asu", 12000, 400000)],
-    "C09": [S("e_seq", "asu", 12000, 400000), S("e_tbb", "asu", 6000, 200000)],
-    "C15": [S("e_seq", "asu", 12000, 400000)],
-    "C03": [S("e_tbb", "asu", 9000, 300000), S("e_tbb", "tsan", 4000, 120000, gate=False)],
-    "C20": [S("e_tbb", "asu", 4000, 60000), S("e_demo_mcb", "asu", 2000, 40000), S("e_demo_approx", "asu", 2000, 40000)],
+    "C01": [S("e_seq", "asu", 40000, 1200000)],
+    "C02": [S("e_seq", "asu", 40000, 1200000)],
+    "C05": [S("e_seq", "asu", 40000, 1200000)],
+    "C06": [S("e_seq", "asu", 40000, 1200000)],
+    "C09": [S("e_seq", "asu", 40000, 1200000), S("e_tbb", "asu", 15000, 400000)],
+    "C15": [S("e_seq", "asu", 40000, 1200000)],
+    "C03": [S("e_tbb", "asu", 25000, 800000), S("e_tbb", "tsan", 12000, 400000, gate=False)],
+    "C20": [S("e_tbb", "asu", 12000, 200000), S("e_demo_mcb", "asu", 6000, 100000), S("e_demo_approx", "asu", 6000, 100000)],
     "C07": [S("e_seq", "asu", 4000, 120000, leakcheck=True), S("e_comp", "asu", 4000, 120000, leakcheck=True), S("e_tbb", "asu", 2500, 80000, leakcheck=True),
             S("e_mpi", "asu", 2000, 60000, leakcheck=True), S("e_tbb", "tsan", 1500, 40000, gate=False), S("e_mpi", "tsan", 1000, 30000, gate=False),
             S("e_demo_mcb", "asu", 600, 15000, leakcheck=True), S("e_demo_approx", "asu", 600, 15000, leakcheck=True), S("e_demo_stats", "asu", 400, 8000, leakcheck=True), S("e_demo_mpi", "asu", 600, 15000, leakcheck=True),
             S("e_seq", "plain", 0, 400, wrapper="valgrind", gate=False, nworkers=8), S("e_comp", "plain", 0, 400, wrapper="valgrind", gate=False, nworkers=8)],
-    "C11": [S("e_demo_mcb", "asu", 3000, 60000), S("e_demo_approx", "asu", 3000, 60000), S("e_demo_stats", "asu", 1500, 30000), S("e_demo_mpi", "asu", 3000, 60000)],
-    "C04": [S("e_mpi", "asu", 8000, 250000)],
-    "C10": [S("e_comp", "asu", 20000, 600000)],
-    "C12": [S("e_comp", "asu", 8000, 200000)],
-    "C13": [S("e_comp", "asu", 20000, 600000)],
-    "C14": [S("e_comp", "asu", 6000, 150000)],
-    "C16": [S("e_comp", "asu", 15000, 400000)],
-    "C17": [S("e_comp", "asu", 20000, 600000)],
-    "C18": [S("e_comp", "asu", 20000, 600000)],
-    "C08": [S("e_mpi", "asu", 3000, 60000), S("e_mpi", "plain", 0, 400, tier_arg="big", gate=False)],
+    "C11": [S("e_demo_mcb", "asu", 10000, 200000), S("e_demo_approx", "asu", 10000, 200000), S("e_demo_stats", "asu", 4000, 60000), S("e_demo_mpi", "asu", 10000, 200000)],
+    "C04": [S("e_mpi", "asu", 20000, 600000), S("e_mpi", "tsan", 4000, 120000, gate=False)],
+    "C10": [S("e_comp", "asu", 60000, 2000000)],
+    "C12": [S("e_comp", "asu", 30000, 600000)],
+    "C13": [S("e_comp", "asu", 60000, 2000000)],
+    "C14": [S("e_comp", "asu", 24000, 500000)],
+    "C16": [S("e_comp", "asu", 50000, 1500000)],
+    "C17": [S("e_comp", "asu", 50000, 2000000)],
+    "C18": [S("e_comp", "asu", 60000, 2000000)],
+    "C08": [S("e_mpi", "asu", 8000, 200000), S("e_mpi", "plain", 0, 400, tier_arg="big", gate=False)],
 }
 
 # classes that belong to C07 whatever workload found them
